@@ -69,6 +69,11 @@ def proj_decisions(calls):
     return p_struct(calls, with_ret=False)
 
 
+def proj_c04(calls):
+    """decisions in their context: the context is the task instance as announced, with the parameters it was given"""
+    return p_struct(calls, with_ret=False, with_params=True)
+
+
 def proj_c08(calls):
     return [[c["op"]["op"], c["ret"], c["exc"], c["running"], c["awaited"], c["start_awaited"],
              len([e for e in c["out"] if e[0] != "NET"])] for c in calls]
@@ -116,25 +121,25 @@ def proj_full(calls):
 
 # nontrivial: rule per property on the stats the monitors measured
 PROPS = {
-    "C01": dict(proj=proj_c01, gen={}, hist="some",
+    "C01": dict(proj=proj_c01, gen={}, hist="some", ids="mostly_test",
                 nontrivial=lambda st, case: st.get("finished") and st.get("services_started", 0) >= 2,
                 rule="order ran to completion with >= 2 services"),
-    "C02": dict(proj=proj_order, gen={}, hist="some",
+    "C02": dict(proj=proj_order, gen={}, hist="some", ids="mostly_test",
                 nontrivial=lambda st, case: st.get("handovers", 0) >= 3,
                 rule=">= 3 statement hand-overs (adjacent statements of a block both visible) checked"),
-    "C03": dict(proj=proj_order, gen={"focus": ["par"]}, hist="some",
+    "C03": dict(proj=proj_order, gen={"focus": ["par"]}, hist="some", ids="mostly_test",
                 nontrivial=lambda st, case: st.get("par", 0) >= 1,
                 rule=">= 1 Parallel block executed"),
-    "C04": dict(proj=proj_decisions, gen={"focus": ["cond"]}, hist="some",
+    "C04": dict(proj=proj_c04, gen={"focus": ["cond"]}, hist="some", ids="mostly_test",
                 nontrivial=lambda st, case: st.get("cond", 0) >= 1,
                 rule=">= 1 Condition evaluated"),
-    "C05": dict(proj=proj_decisions, gen={"focus": ["cloop", "wloop"], "ploop_lit_in_loop": True, "shadow_loopvars": True}, hist="some",
+    "C05": dict(proj=proj_decisions, gen={"focus": ["cloop", "wloop"], "ploop_lit_in_loop": True, "shadow_loopvars": True}, hist="some", ids="mostly_test",
                 nontrivial=lambda st, case: st.get("cloop_iters", 0) + st.get("wloop_iters", 0) >= 1,
                 rule=">= 1 loop iteration executed"),
-    "C06": dict(proj=proj_order, gen={"focus": ["ploop"], "ploop_lit_in_loop": True}, hist="some",
+    "C06": dict(proj=proj_order, gen={"focus": ["ploop"], "ploop_lit_in_loop": True}, hist="some", ids="mostly_test",
                 nontrivial=lambda st, case: st.get("ploop", 0) >= 1,
                 rule=">= 1 parallel loop executed"),
-    "C07": dict(proj=proj_order, gen={}, hist="some",
+    "C07": dict(proj=proj_order, gen={}, hist="some", ids="mostly_test",
                 nontrivial=lambda st, case: st.get("tasks_started", 0) >= 2 and st.get("services_started", 0) >= 2,
                 rule=">= 2 task instances and >= 2 service instances"),
     "C08": dict(proj=proj_c08, gen={}, hist=True,
@@ -143,16 +148,16 @@ PROPS = {
     "C14": dict(proj=proj_full, gen={"focus": ["cloop", "call"]}, hist="some", ids="both",
                 nontrivial=lambda st, case: st.get("tasks_started", 0) >= 2 and st.get("services_started", 0) >= 3,
                 rule=">= 2 task and >= 3 service instances"),
-    "C15": dict(proj=proj_c15, gen={"focus": ["cloop", "ploop", "call"]}, hist="some", mutate="half",
+    "C15": dict(proj=proj_c15, gen={"focus": ["cloop", "ploop", "call"]}, hist="some", ids="mostly_test", mutate="half",
                 nontrivial=lambda st, case: st.get("params_delivered", 0) >= 2,
                 rule=">= 2 notifications with non-empty parameter lists"),
-    "C17": dict(proj=proj_c17, gen={}, hist=True,
+    "C17": dict(proj=proj_c17, gen={}, hist=True, ids="mostly_test",
                 nontrivial=lambda st, case: st.get("log_entries", 0) >= 4,
                 rule=">= 4 log entries delivered to attached observers"),
     "C18": dict(proj=proj_full, gen={"focus": ["cloop", "call"]}, hist=False, variants=True,
                 nontrivial=lambda st, case: st.get("variants", 0) >= 3,
                 rule=">= 3 configuration variants compared"),
-    "C20": dict(proj=proj_c20, gen={}, hist=True,
+    "C20": dict(proj=proj_c20, gen={}, hist=True, ids="mostly_test",
                 nontrivial=lambda st, case: st.get("notification_groups", 0) >= 4 and case.get("_multi_listener"),
                 rule=">= 4 notifications with a registration history of more than the default listeners"),
 }
@@ -226,6 +231,10 @@ def job_gen_run(args):
     ids = opts.get("ids", "test")
     if ids == "both":
         ids = rng.choice(["test", "uuid"])
+    elif ids == "mostly_test":
+        # a quarter of the cases of every scheduling property run with UUIDs (the public default): identifiers are
+        # compared up to renaming there
+        ids = "uuid" if random.Random(seed ^ 0x1D5).random() < 0.25 else "test"
     case["ids"] = ids
     mut = opts.get("mutate")
     case["mutate"] = (rng.random() < 0.5) if mut == "half" else bool(mut)
@@ -261,6 +270,8 @@ def job_gen_run_any(args):
         case["imm_other"] = [rng.random() < 0.5 for _ in range(rng.randint(1, 6))]
     if all(case["imm"]):
         case["imm"] = [True, False]
+    if rng.random() < 0.15:
+        case["start_by_event"] = True
     r = job_run(case)
     r["viol"] = []
     r["net_only"] = True
